@@ -52,6 +52,8 @@ FIXED = [
  ("F51", "C15", "fix: deduplicate_namespaces runs to a fixed point", "a second deduplicate_namespaces call removed further declarations"),
  ("F35", "C14", "fix: no indentation inside xml:space", "indentation was written inside xml:space=\"preserve\" when the element is not at depth 0"),
  ("F36", "C14", "fix: carriage return in a CDATA-section element", "a CR inside a CDATA-section element came back as LF"),
+ ("F25", "C08", "fix: name, namespace and prefix ids no longer wrap around", "the 65 537th distinct name (namespace, prefix) received the id of the first one (16-bit ids, unchecked cast)"),
+ ("F42", "C20", "fix: fixed::Document::xotify puts trailing comments and PIs after the document element", "fixed::Document::xotify appended trailing comments/PIs inside the document element"),
  ("F31a", "C06", "fix: create_missing_prefixes returns an error for a document without an element", "create_missing_prefixes panicked on a document without element"),
 ]
 OPEN = [
